@@ -151,6 +151,8 @@ func repeatRaws() []string {
 		"x\n\ty", "x\n\t\ty", "x\n        \ty", "x\n\t  y", "x\n    \ty", "x\n\t    \tz",
 		// undefined backslash pairs: accepted in the argument of pattern only
 		"\\d+", "a\\.b\n     \\d", "\\d\n  \\s", "\\ \\\n\n     \\{",
+		// supplementary-plane characters, combining marks, zero-width and double-width characters
+		"\U0001F600", "x\U00020000\n     \U00010000\u0301y\U0010FFFF", "\u200b\uff21\n  \U0001D400 z",
 	}
 	for _, n := range []int{0, 1, 2, 3, 4, 5, 6, 7, 8, 9, 12, 16, 24} {
 		raws = append(raws, "x\n"+sp(n)+"y")
@@ -165,6 +167,8 @@ func repeatRaws() []string {
 var repeatHeads = []string{
 	"a ", "bb ", "ccc ", "dddd ", "  a ", "    leaf ", "\ta ", "a\t", "é ", "/* c */ a ", "a\n  ", "a\n", "description\n      ",
 	"a 'q' + ", "a 'q'\n  + ", "a \"q\" +\n\t", "        description    ", "a\n ",
+	// quote column 3 after a supplementary-plane keyword, 10 after a comment that holds one and a combining mark
+	"\U00020000 ", "/*\U0001F600\u0301*/ a ",
 }
 
 var repeatPatternHeads = []string{"pattern ", "  pattern  ", "pattern\n      ", "pattern 'q' + ", "\tpattern\t"}
@@ -257,7 +261,8 @@ func RepeatedOther(emit func(Case)) {
 		}
 	}
 	// unquoted words: as keyword and as argument, at several depths
-	words := []string{"a", "b", "pattern", "+", "é", "1..2", "/a/b", "x:y", "a+b", "*/", "\uFEFF", "leaf", "true", "a\\nb", "\\d", "-", "1.1"}
+	words := []string{"a", "b", "pattern", "+", "é", "1..2", "/a/b", "x:y", "a+b", "*/", "\uFEFF", "leaf", "true", "a\\nb", "\\d", "-", "1.1",
+		"\U0001F600", "a\U00020000\u0301b"}
 	for _, w := range words {
 		k := w
 		if w == "+" {
@@ -278,7 +283,8 @@ func RepeatedOther(emit func(Case)) {
 		}
 	}
 	// comments: the same comment between all tokens, and its text inside quoted strings too
-	comments := []string{"/* c */", "// c\n", "/**/", "/* a\n * b */", "//\n", "/***/", "/* é\t*/", "/*/*/", "// /* c\n", "/* // */", "/* ' \" */", "//;{}\"'\n"}
+	comments := []string{"/* c */", "// c\n", "/**/", "/* a\n * b */", "//\n", "/***/", "/* é\t*/", "/*/*/", "// /* c\n", "/* // */", "/* ' \" */", "//;{}\"'\n",
+		"/*\U0001F600*/", "/* \U00010000\n\U0010FFFF\u0301 */"}
 	for _, c := range comments {
 		add(c + "a " + c + "b " + c + ";" + c)
 		add(c + c + "a " + c + c + "{" + c + "b " + c + "c " + c + ";" + c + "}" + c + c)
@@ -380,6 +386,22 @@ func GenRepeatTokens(r *rand.Rand) ([]GTok, []string) {
 	}
 	kws := []string{kwPool[r.Intn(len(kwPool))], kwPool[r.Intn(len(kwPool))], []string{"a", "bb", "description", "pattern"}[r.Intn(4)]}
 	unqs := []string{unqPool[r.Intn(len(unqPool))], kws[0]}
+	zcomment := ""
+	if r.Intn(4) == 0 {
+		// one text in four: a pool character (chars.go) in the pooled keyword, unquoted argument, quoted
+		// pieces and the comment, so that it is repeated with them
+		z := pickChar(r).S
+		if kws[0] != "pattern" {
+			kws[0] += z
+		}
+		unqs[0] = z + unqs[0]
+		for i := range pool {
+			if r.Intn(2) == 0 {
+				pool[i].text = pool[i].text[:1] + z + pool[i].text[1:]
+			}
+		}
+		zcomment = "/*" + z + "*/"
+	}
 	var out []GTok
 	var stmt func(depth int, top bool)
 	stmt = func(depth int, top bool) {
@@ -430,6 +452,9 @@ func GenRepeatTokens(r *rand.Rand) ([]GTok, []string) {
 		stmt(3, true)
 	}
 	cs := []string{[]string{"/* c */", " // c\n", "/**/", " /* a\n * b */ ", "/* é\t*/", " //\n"}[r.Intn(6)]}
+	if zcomment != "" {
+		cs = []string{zcomment}
+	}
 	return out, cs
 }
 
@@ -448,6 +473,7 @@ func RenderRepeat(r *rand.Rand, toks []GTok, comments []string) string {
 	}
 	for i, t := range toks {
 		sb.WriteString(t.Text)
+		sb.WriteString(t.After)
 		f := fill()
 		if isUnq(t.Kind) {
 			if strings.HasPrefix(f, "/") {
